@@ -52,5 +52,14 @@ RecycleHarmless == Is("recycle") =>
 BudgetAckResets == (Is("budget") /\ sc.variant = "ack") =>
     (o.done /\ o.init_deaths = 2 * (sc.maxr - 1) /\ o.job_ok)
 BudgetStops == ExpectedDeath => (o.host = "died:-15" /\ o.init_deaths = sc.maxr)
+(* C08: a worker that gets the termination signal runs its (slow) exit callback to the end, goes,
+   and is replaced *)
+SignalledRunsCallback == Is("signal_one") =>
+    (o.callback_began /\ o.callback_ended /\ o.gone10 >= 0 /\ o.pool_size = 2 /\ o.next_ok
+     /\ o.job_outcome \in {"Terminated", "SystemExit"})     \* pool-made, or the signal's own exception
+                                                               \* sent back by the worker before it left
+(* C08: terminate() in the middle of a replacement round returns, and nothing is forked afterwards *)
+TerminateStopsRefill == Is("term_repop") =>
+    (o.returned /\ o.secs10 <= 100 + Slack10 /\ o.alive = 0 /\ o.forked_after = 0)
 DiscardNoHoldUp == Is("discard") => (o.outcome = "ok" /\ (o.secs10 < 50 + Slack10 \/ TolDiscardCredit))
 =============================================================================
